@@ -14,7 +14,7 @@ VARIABLES l, fs, fds, tid, sc, bad   \* position, abstract FS, open handles, cur
 
 (* scenario record (first event of a trace): old = "OLD" | "ABSENT", oldmode, new = chunk ids of the new text *)
 OldData == <<"OLD">>
-InitFs(s) == [p \in {"target"} |-> IF s.old = "OLD" THEN File(OldData, s.oldmode) ELSE Absent]
+InitFs(s) == [p \in {"target"} |-> IF s.old = "OLD" THEN SFile(OldData, s.oldmode, TRUE) ELSE Absent]
 
 Step(e, f, d) ==   \* <<fs', fds'>> after event e on <<f, d>>
   IF e.res # "ok" THEN
@@ -28,13 +28,14 @@ Step(e, f, d) ==   \* <<fs', fds'>> after event e on <<f, d>>
          [] e.op = "write"   -> IF e.h \in DOMAIN d THEN Write(f, d, e.h, e.chunk) ELSE <<f, d>>
          [] e.op = "flush"   -> IF e.h \in DOMAIN d THEN Flush(f, d, e.h) ELSE <<f, d>>
          [] e.op = "close"   -> IF e.h \in DOMAIN d THEN Close(f, d, e.h) ELSE <<f, d>>
+         [] e.op = "fsync"   -> IF e.h \in DOMAIN d THEN Fsync(f, d, e.h) ELSE FsyncPath(f, d, e.path)
          [] e.op = "fchmod"  -> IF e.h \in DOMAIN d THEN Fchmod(f, d, e.h, e.mode) ELSE <<f, d>>
          [] e.op = "chmod"   -> Chmod(f, d, e.path, e.mode)
          [] e.op = "rename"  -> Rename(f, d, e.path, e.path2)
          [] e.op = "unlink"  -> Unlink(f, d, e.path)
          [] e.op = "mkdir"   -> Mkdir(f, d, e.path)
          [] e.op = "kill"    -> Kill(f, d)
-         [] OTHER            -> <<f, d>>            \* stat, lstat, read, fsync, readlink: no effect on the abstract state
+         [] OTHER            -> <<f, d>>            \* stat, lstat, read, readlink: no effect on the abstract state
 
 Atomic(f, s) == Holds(f, "target", OldData, s.new) \in {s.old, "NEW"}
 
@@ -68,7 +69,8 @@ TNext ==
      THEN /\ Report(e.i, SnapFails(e, fs, sc)) /\ UNCHANGED <<fs, fds, tid, sc, bad>>
      ELSE LET nx == Step(e, fs, fds) IN
           /\ fs' = nx[1] /\ fds' = nx[2]
-          /\ Report(e.i, IF Atomic(nx[1], sc) THEN {} ELSE {"Atomic:after_" \o e.op})
+          /\ Report(e.i, (IF Atomic(nx[1], sc) THEN {} ELSE {"Atomic:after_" \o e.op})
+                          \cup (IF Durable(nx[1], "target") \/ ~Atomic(nx[1], sc) THEN {} ELSE {"Durable:after_" \o e.op}))
           \* a failed unlink / existence probe of a temp file is a cleanup the code could not have done
           /\ bad' = (bad \/ (e.res # "ok" /\ e.op \in {"unlink", "stat", "lstat"} /\ e.path \notin {"target", "parent"}))
           /\ UNCHANGED <<tid, sc>>
